@@ -359,38 +359,82 @@ def check_C06(tier, ev):
         runs = [("mc/MC_Overlay_quick.cfg", 600), ("mc/MC_Overlay_thorough.cfg", 3000), ("mc/MC_Overlay_deep.cfg", 3000)]
         ntr, ltr = 400, 300
     for cfg, to in runs:
-        name = os.path.basename(cfg)[:-4]
-        c = emit_cfg(cfg, name + "_emit.cfg")
-        res, rep = run_tlc("mc/MC_Overlay.tla", c, to, f"C06-{name}", pipe_to=[MTV, "replay", "overlay", "-"])
-        ev.add_tlc(name, res, ["Write", "Push", "Commit", "Discard"])
-        if res.violated:
-            spec_violation(ev, name, res)
-        ev.add_report(name + ":replay", rep)
-        if rep["scripts"] < res.distinct:
-            raise ToolError(f"only {rep['scripts']} of {res.distinct} emitted states reached the harness")
+        mc_and_replay(ev, "mc/MC_Overlay.tla", cfg, "overlay", to, ["Write", "Push", "Commit", "Discard"])
     ev.exhaustive = True
-    # impl -> spec
-    tr = os.path.join(OUT, "C06-drive.ndjson")
-    rep = run_mtv(["drive", "overlay", str(ntr), str(ltr), tr], tag="C06-drive")
-    ok, res = validate_trace("trace/Trace_Overlay.tla", "trace/Trace_Overlay.cfg", tr, "C06-trace")
+    drive_and_validate(ev, "overlay", ntr, ltr, "trace/Trace_Overlay.tla", "trace/Trace_Overlay.cfg")
+
+
+def drive_and_validate(ev, layer, n, length, module, cfg, extra_args=()):
+    """impl -> spec: record random executions of the real code, let TLC judge them"""
+    pid = ev.pid
+    tr = os.path.join(OUT, f"{pid}-drive.ndjson")
+    rep = run_mtv(["drive", layer, str(n), str(length), tr] + list(extra_args), tag=f"{pid}-drive")
+    ok, res = validate_trace(module, cfg, tr, f"{pid}-trace")
     ev.runs.append({"stage": "drive+trace-validation", "runs": rep["runs"], "events": rep["events"],
                     "accepted": ok, "tlc_states": res.distinct})
     ev.traces += rep["runs"]
     ev.evaluations += rep["events"]
+    if res.distinct < rep["events"] and ok:
+        raise ToolError(f"trace validation consumed {res.distinct} states for {rep['events']} events")
     if not ok:
-        keep = os.path.join(VIOL, "C06-trace.ndjson")
+        keep = os.path.join(VIOL, f"{pid}-trace.ndjson")
         os.makedirs(VIOL, exist_ok=True)
         os.replace(tr, keep)
-        m = re.search(r"MISMATCH line\", (\d+)", res.log)
+        m = re.search(r'MISMATCH line", (\d+)', res.log)
         ev.violations.append((keep, {"trace_rejected_at_line": m.group(1) if m else "?",
-                                     "tlc": res.log[-1500:]}))
+                                     "tlc": [l for l in res.log.splitlines() if "MISMATCH" in l or "NOT ACCEPTED" in l][:3]}))
     elif os.path.exists(tr):
         os.remove(tr)
 
 
-CHECKS = {"C06": check_C06}
+def mc_and_replay(ev, module, cfg, layer, timeout, required_actions, emit=("Emit",)):
+    name = os.path.basename(cfg)[:-4]
+    c = emit_cfg(cfg, name + "_emit.cfg", emit)
+    res, rep = run_tlc(module, c, timeout, f"{ev.pid}-{name}", pipe_to=[MTV, "replay", layer, "-"])
+    ev.add_tlc(name, res, required_actions)
+    if res.violated:
+        spec_violation(ev, name, res)
+    ev.add_report(name + ":replay", rep)
+    if rep["scripts"] < res.distinct and not res.violated:
+        raise ToolError(f"only {rep['scripts']} of {res.distinct} emitted states reached the harness")
+    return res, rep
 
-REPLAY_LAYER = {"C06": "overlay"}
+
+def check_C07(tier, ev):
+    ev.rule = ("TLC enumerates every sequence of set/remove/read-only-write through every namespace path of an adversarial "
+               "path set (empty path, empty segment, 0xFF segments, nested paths, keys that spell another namespace's raw "
+               "prefix); for every (operation, resulting state) the operations are replayed through App::prefixed_storage(_mut), "
+               "prefixed_multilevel_storage(_mut) and storage(_mut); the raw dump of the root store and the read battery of "
+               "every view (every key, every bound pair, both orders, read-only and mutable view) are compared with TLC's "
+               "answers. Non-trivial = the store is non-empty afterwards (distinct operation sequences counted).")
+    ev.assumptions += ["B = 256 configurations use the bytes 0x00, 0x01, 0xFF so that raw keys are real bytes; the B = 3 "
+                       "configuration checks the design where 'all length bytes and all bytes maximal' is reachable",
+                       "a 65535 x 0xFF segment is exercised by the directed run of the trace-validation stage",
+                       "exhaustive within MaxOps operations; random traces with arbitrary namespaces beyond"]
+    # design level, B = 3 (includes the all-maximal prefix)
+    res, _ = run_tlc("mc/MC_Prefixed.tla", "mc/MC_Prefixed_b3.cfg", 900, "C07-b3")
+    ev.add_tlc("MC_Prefixed_b3", res, ["ViewSet", "ViewRemove", "ReadonlyWrite"])
+    if res.violated:
+        spec_violation(ev, "b3", res)
+    # non-vacuity: the upper bound as the code computed it before the repair must be rejected by TLC
+    res, _ = run_tlc("mc/MC_Prefixed.tla", "mc/MC_Prefixed_b3_wrap.cfg", 900, "C07-b3wrap", expect_ok=False)
+    if res.violated != "WindowExact":
+        raise ToolError("vacuity: WindowExact does not reject the wrapping upper bound")
+    ev.runs.append({"stage": "MC_Prefixed_b3_wrap (sanity: wrapping upper bound rejected)", "violated": res.violated})
+    cfgs = ["mc/MC_Prefixed_quick.cfg"] if tier == "quick" else \
+        ["mc/MC_Prefixed_quick.cfg", "mc/MC_Prefixed_thorough.cfg", "mc/MC_Prefixed_deep.cfg"]
+    for cfg in cfgs:
+        mc_and_replay(ev, "mc/MC_Prefixed.tla", cfg, "prefixed", 3000, ["ViewSet", "ViewRemove", "ReadonlyWrite"])
+    ev.exhaustive = True
+    n, ln = (12, 40) if tier == "quick" else (150, 80)
+    drive_and_validate(ev, "prefixed", n, ln, "trace/Trace_Prefixed.tla", "trace/Trace_Prefixed.cfg")
+
+
+CHECKS = {"C06": check_C06, "C07": check_C07}
+
+REPLAY_LAYER = {"C06": "overlay", "C07": "prefixed"}
+TRACE_SPEC = {"C06": ("trace/Trace_Overlay.tla", "trace/Trace_Overlay.cfg"),
+              "C07": ("trace/Trace_Prefixed.tla", "trace/Trace_Prefixed.cfg")}
 
 
 def main():
@@ -412,8 +456,8 @@ def main():
         if cmd == "replay":
             pid, path = sys.argv[2], sys.argv[3]
             build_harness()
-            if path.endswith(".ndjson") and pid == "C06":
-                ok, res = validate_trace("trace/Trace_Overlay.tla", "trace/Trace_Overlay.cfg", path, "replay")
+            if path.endswith(".ndjson") and pid in TRACE_SPEC:
+                ok, res = validate_trace(TRACE_SPEC[pid][0], TRACE_SPEC[pid][1], path, "replay")
                 print(res.log[-1500:])
                 sys.exit(0 if ok else 1)
             if path.endswith(".log"):
